@@ -90,12 +90,16 @@ static void chaos_plan(Rng &rng, Plan &p, const std::string &prop) {
         int kind = (int) rng.below(8);
         Bytes rq = "GET / HTTP/1.1\r\nHost: a\r\n", rs = "HTTP/1.1 200 OK\r\nContent-Length: 0\r\n";
         size_t over = (size_t) hard + (size_t) rng.range(1, 300);
+        if (rng.chance(1, 3)) over = (size_t) hard + (size_t) rng.range(1, 3);   // right at the edge
+        // where the over-long line is (for the "exceeding it is reported as an error" half): direction, offset of its first byte
+        // and its length up to and including the line end
+        auto long_line = [&](int dir, const Bytes &st, size_t start) { size_t e = st.find('\n', start); p.cfg.set("c10_long_dir", dir); p.cfg.set("c10_long_start", (long) start); p.cfg.set("c10_long_len", (long) ((e == std::string::npos ? st.size() : e + 1) - start)); };
         switch (kind) {
-            case 0: rq = "GET /"; rq.append(over, 'a'); rq += " HTTP/1.1\r\nHost: a\r\n\r\n"; rs += "\r\n"; break;
-            case 1: rq += "X-Long: "; rq.append(over, 'v'); rq += "\r\n\r\n"; rs += "\r\n"; break;
-            case 2: rq = "POST / HTTP/1.1\r\nHost: a\r\nTransfer-Encoding: chunked\r\n\r\n1;"; rq.append(over, 'e'); rq += "\r\na\r\n0\r\n\r\n"; rs += "\r\n"; break;
-            case 3: rq += "\r\n"; rs = "HTTP/1.1 200 "; rs.append(over, 'r'); rs += "\r\nContent-Length: 0\r\n\r\n"; break;
-            case 4: rq += "\r\n"; rs += "X-Long: "; rs.append(over, 'v'); rs += "\r\n\r\n"; break;
+            case 0: rq = "GET /"; rq.append(over, 'a'); rq += " HTTP/1.1\r\nHost: a\r\n\r\n"; rs += "\r\n"; long_line(0, rq, 0); break;
+            case 1: { size_t st0 = rq.size(); rq += "X-Long: "; rq.append(over, 'v'); rq += "\r\n\r\n"; rs += "\r\n"; long_line(0, rq, st0); break; }
+            case 2: { rq = "POST / HTTP/1.1\r\nHost: a\r\nTransfer-Encoding: chunked\r\n\r\n"; size_t st0 = rq.size(); rq += "1;"; rq.append(over, 'e'); rq += "\r\na\r\n0\r\n\r\n"; rs += "\r\n"; long_line(0, rq, st0); break; }
+            case 3: rq += "\r\n"; rs = "HTTP/1.1 200 "; rs.append(over, 'r'); rs += "\r\nContent-Length: 0\r\n\r\n"; long_line(1, rs, 0); break;
+            case 4: { rq += "\r\n"; size_t st0 = rs.size(); rs += "X-Long: "; rs.append(over, 'v'); rs += "\r\n\r\n"; long_line(1, rs, st0); break; }
             case 5: for (int i = 0; i < 90; i++) { rq += "X-Rep: v\r\n"; rs += "X-Rep: v\r\n"; } rq += "\r\n"; rs += "\r\n"; break;
             case 6: { Bytes line = " "; line.append((size_t) std::min<long>(hard - 10, 900), 'c'); line += "\r\n"; rq += "X-Fold: v\r\n"; rs += "X-Fold: v\r\n"; size_t nl = 102400 / (line.size() - 3) + 20; if (rng.coin()) nl = (size_t) hard / (line.size() - 3) + 2; for (size_t i = 0; i < nl; i++) { rq += line; rs += line; }
                       // then one more continuation that has to be buffered (cut inside, below) while the pending header is already past the limit
@@ -1847,6 +1851,16 @@ Verdict evaluate_plan(const Plan &p, Agg *agg) {
     if (prop == "C01" || prop == "C05" || prop == "C09" || prop == "C10") {
         RunResult r; execute_plan(p, r); note_run(r, p, v, agg);
         first_violation_of(r, prop, v);
+        if (!v.violated && prop == "C10" && p.cfg.has("c10_long_len") && p.cbs.empty()) {
+            // "exceeding it is reported as an error for that direction, not silently truncated": if some call ended inside the over-long
+            // line at a point where more than the hard limit of it was unfinished, that direction must have reported ERROR
+            int d = (int) p.cfg.get("c10_long_dir", 0); long start = p.cfg.get("c10_long_start", 0), len = p.cfg.get("c10_long_len", 0), hard = p.cfg.get("field_hard", 18000);
+            long pos = 0; bool must = false, gap = false;
+            for (auto &op : p.ops) { if (op.conn != 0) continue; int od = (op.kind == 'Q' || op.kind == 'q') ? 0 : (op.kind == 'S' || op.kind == 's') ? 1 : -1; if (op.kind == 'q' || op.kind == 's') gap = true; if (od != d) continue; pos += op.n; if (pos > start + hard && pos < start + len) must = true; }
+            bool closed_early = false; for (auto &op : p.ops) if (op.kind == 'c' || op.kind == 'C' || op.kind == 'D' || op.kind == 'Z' || op.kind == 'z' || op.kind == 'T' || op.kind == 'R') closed_early = true;
+            if (must && !gap && !closed_early && r.conns[0].sticky[d] != 3) { v.violated = true; v.oracle = d ? "C10.limit_exceeded_not_reported.response" : "C10.limit_exceeded_not_reported.request"; v.detail = strfmt("a call ended inside a line of %ld bytes with more than the hard limit (%ld) of it unfinished; sticky state of that direction: %d", len, hard, r.conns[0].sticky[d]); }
+            if (agg && must) agg->inc("c10.limit_must_be_reported");
+        }
         if (!v.violated && prop == "C10" && p.scenario.compare(0, 6, "steady") == 0) {
             first_violation_of(r, "C01", v); if (v.violated) { v.oracle = "C10.via." + v.oracle; return v; }
             std::string o, d; if (!check_c10_steady(p, r, o, d)) { v.violated = true; v.oracle = o; v.detail = d; }
